@@ -541,3 +541,10 @@ M("C22", "twin: expanded cubic", "twin",
   [(PT, "        return p0 + t * (p1 + t * (p2 + t * p3))", "        return p0 + p1 * t + p2 * t * t + p3 * t * t * t")])
 M("C02", "user initial state multiplied by its norm", "kill",
   [(IMPL, "        initial_state *= 1 / initial_state.norm()", "        initial_state *= 1 * initial_state.norm()")], "ROLE-mps")
+KE = "emu_base/math/krylov_exp.py"
+M("C07", "convergence estimate rescaled by the norm of the input", "kill",
+  [(KE, "        if err < exp_tolerance:", "        if initial_norm * err < exp_tolerance:")], "CONV-honest")
+M("C07", "breakdown test divided by the norm of the input", "kill",
+  [(KE, "        if n2 < norm_tolerance:", "        if n2 / initial_norm < norm_tolerance:")], "CONV-honest")
+M("C08", "Lanczos residual tolerance scaled by the start vector's norm", "kill",
+  [("emu_base/math/krylov_energy_min.py", "resid.item() < residual_tolerance", "resid.item() < residual_tolerance * v_init_norm.item()")], "CONV-honest")
